@@ -403,4 +403,78 @@ example : (⟨some "g".toList, "l".toList, "p".toList⟩ : Entry).Plain := by
   refine ⟨?_, by decide, by decide, by decide, by decide⟩
   intro n hn; cases hn; exact ⟨by decide, by decide⟩
 
+/-! ### One shared Config, several registries, any interleaving of `Make` calls (S4C) -/
+
+/-- Invariant of the cloning `Make`: every private slice ends in the interceptor of its own call's
+    address, and so does every client built so far. -/
+theorem mrun_clone_inv (addr : Nat → Str) (steps : List MStep) (s : MState)
+    (hown : ∀ p ∈ s.own, p.2 = addr p.1)
+    (hbuilt : ∀ i a, (i, some a) ∈ s.built → a = addr i) :
+    (∀ p ∈ (steps.foldl (mstep false addr) s).own, p.2 = addr p.1) ∧
+    (∀ i a, (i, some a) ∈ (steps.foldl (mstep false addr) s).built → a = addr i) := by
+  induction steps generalizing s with
+  | nil => exact ⟨hown, hbuilt⟩
+  | cons st rest ih =>
+    simp only [List.foldl_cons]
+    apply ih
+    · cases st with
+      | append i =>
+        intro p hp
+        simp only [mstep, Bool.false_eq_true, if_false, List.mem_cons] at hp
+        rcases hp with rfl | hp
+        · rfl
+        · exact hown p hp
+      | build i => simpa [mstep] using hown
+    · cases st with
+      | append i => simpa [mstep] using hbuilt
+      | build i =>
+        intro j a hj
+        simp only [mstep, Bool.false_eq_true, if_false, List.mem_cons] at hj
+        rcases hj with hj | hj
+        · have hji : j = i := congrArg Prod.fst hj
+          have hlo : some a = lookupOwn s.own i := congrArg Prod.snd hj
+          subst hji
+          unfold lookupOwn at hlo
+          cases hf : s.own.find? (fun p => p.1 = j) with
+          | none => rw [hf] at hlo; cases hlo
+          | some p =>
+            rw [hf] at hlo
+            have hp1 : p.1 = j := by simpa using List.find?_some hf
+            have hp2 := hown p (List.mem_of_find?_eq_some hf)
+            have : a = p.2 := Option.some.inj hlo
+            rw [this, hp2, hp1]
+        · exact hbuilt j a hj
+
+/-- As coded (`slices.Clone` per call): under EVERY interleaving of the steps of any number of
+    `Make` calls on one shared Config, a client is built with the authorization interceptor of
+    its OWN address — never another call's. -/
+theorem make_clone_schedule_independent (addr : Nat → Str) (steps : List MStep) (i : Nat) (a : Str)
+    (h : (i, some a) ∈ (mrun false addr steps).built) : a = addr i :=
+  (mrun_clone_inv addr steps MState.init (by intro p hp; cases hp) (by intro i a h; cases h)).2 i a h
+
+/-- Hence the credential a request carries is a function of (configuration, address of the
+    client) only — whatever other clients were made from the same Config, before, after or at the
+    same time: it is `chainAuth` at the client's own address, to which `header_only_if_configured`
+    applies.  (The model is sequential and pure; that the real, concurrent `Make` behaves like
+    some interleaving of these steps is exercised by section E of the harness: concurrent, nested
+    and sequential construction on one shared config against four loopback registries.) -/
+theorem client_token_function_of_config_and_address (bufToken : Str) (file : Option (List Str))
+    (addr : Nat → Str) (steps : List MStep) (i : Nat) (a : Str)
+    (h : (i, some a) ∈ (mrun false addr steps).built) :
+    clientAuth bufToken file a = chainAuth bufToken file (addr i) := by
+  rw [make_clone_schedule_independent addr steps i a h]; rfl
+
+/-- Seed C19-m5 (append onto the shared slice): the interleaving append A, append B, build A,
+    build B gives BOTH clients the interceptor of B — every later request to A carries B's token.
+    A purely sequential use (append A, build A, append B, build B) shows nothing. -/
+theorem make_shared_slice_counterexample :
+    (mrun true (fun i => if i = 0 then "A".toList else "B".toList) [.append 0, .append 1, .build 0, .build 1]).built =
+      [(1, some "B".toList), (0, some "B".toList)] ∧
+    (mrun true (fun i => if i = 0 then "A".toList else "B".toList) [.append 0, .build 0, .append 1, .build 1]).built =
+      [(1, some "B".toList), (0, some "A".toList)] := by decide
+
+-- non-vacuity: an interleaved cloning run builds both clients correctly
+example : (mrun false (fun i => if i = 0 then "A".toList else "B".toList) [.append 0, .append 1, .build 0, .build 1]).built =
+    [(1, some "B".toList), (0, some "A".toList)] := by decide
+
 end BufProofs.C19
